@@ -101,6 +101,11 @@ def main(tier, seed):
                 continue
             exp = sort_attrs(girgen.expected_dump(ns))
             got = sort_attrs([norm_line(l) for l in api if not l.startswith('NS ')])
+            exp, both = girgen.both_dimensions(exp, got)
+            exp, got = sort_attrs(exp), sort_attrs(got)
+            if both:
+                ck.failing_input('an array with a length parameter and a fixed size: the fixed size is not in the typelib', dict(gir=xml),
+                                 detail=both[:3], fid='C06-K1-array-with-length-and-fixed-size')
             d = first_diff(exp, got)
             if d:
                 ck.failing_input('the typelib does not describe the GIR it was compiled from', dict(gir=xml),
